@@ -59,7 +59,8 @@ def run(ctx):
                               ("c14_totp_mismatches", "validateUserTOTP verdict and rate-limit entry after every attempt, and every entry after every pass of the periodic cleanup, = model with the uint32 counter (simulated time)", "CasesC14_totp.idx")], "CasesC14.idx"),
         trusted=["golang.org/x/time/rate computes in float64; the model is exact and tolerates either verdict within half a nanosecond of refill around the threshold",
                  "time is simulated for validateUserTOTP by shifting the time fields of state.totpLocalRateLimit (the code reads time.Now() itself); comparisons are kept 120 ms off their boundaries",
-                 "recording PasswordAuthenticator installed in RuntimeState.passwordChecker stands for the password backend"],
+                 "recording PasswordAuthenticator installed in RuntimeState.passwordChecker stands for the password backend (scripted answer streams: verdict / error); for Okta the real lib/authenticators/okta PasswordAuthenticator talks to a local httptest authn endpoint",
+                 "concurrent one-time-code probe: an evaluation is recognised by the verdict (accepted, or the internal error of a second enabled device whose stored secret cannot be decrypted); a throttled attempt answers a plain refusal"],
         assumptions=["arrival times at the limiter are non-decreasing (time.Now() is read just before the limiter's lock is taken; reordering of concurrent requests by microseconds is not modelled)",
                      ],
         timeout=1500)
